@@ -31,7 +31,7 @@ RULE = (
     "2-argument user getter); 1 leaf in 10 is a plain small ndarray. Oracle: every output equals the NumPy twin "
     "(shape, dtype, values); every request logged while the graph executes is a tuple of slices/ints with "
     "0 <= start <= stop <= n, step None or >= 1, ints in [0, n); the elements requested cover the elements the output "
-    "needs (id-array twin); metamorphic: for an output y = v[b] whose whole chain has unit steps and no newaxis, the elements "
+    "needs (id-array twin); metamorphic: for an output y = v[b] whose whole chain has unit steps and no newaxis and whose result is not empty, the elements "
     "requested when computing y are a subset of those requested when computing v alone. Thorough tier adds <= 1% cases "
     "on a real 3000x3000 float64 ndarray (72 MB) sliced 1-2 times (optionally through a transpose / elemwise) so the "
     "region stays above the 64 MiB eager-copy limit and the NumPy region path of FromArray._layer runs. Non-trivial: "
@@ -41,7 +41,7 @@ RULE = (
 ASSUMPTIONS = [
     "NumPy indexing of the wrapped ndarray is the reference; the recorder delegates to it and only observes",
     "bounds are asserted on what is requested (slices are not silently clipped by the oracle: stop > n is a failure even though NumPy would clip it)",
-    "the subset relation is asserted only for chains of unit-step slices and ints: a (fused) slice with a non-unit step or a newaxis is not pushed into the read and legitimately reads whole blocks (class 'unpushable-slice-reads-beyond-prefix')",
+    "the subset relation is asserted only for chains of unit-step slices and ints: a (fused) slice with a non-unit step or a newaxis is not pushed into the read and legitimately reads whole blocks (class 'unpushable-slice-reads-beyond-prefix'); nor for empty results, which read one block to cut a 0-length piece from it (class 'empty-selection-reads-a-block')",
     "a request made with phase 'execute' includes the 0-size meta requests of the optimisation that compute() runs; they satisfy the same bounds",
     "sync scheduler",
 ]
@@ -457,6 +457,13 @@ def check(case, vals=None):
             if bad:
                 fails.append((f"request|{bad.split(':')[0]}", f"output {o}: source shape {shape}, request {index!r} -> result shape {rshape}: {bad}"))
         labs.add("requests-observed")
+        grid = (prog["leaves"][leaf_of[o]].get("src") or {}).get("storage")
+        if grid:
+            # informational only (the property does not state alignment): does a read cut through a storage chunk?
+            for index, rshape, ph in mine:
+                if isinstance(index, tuple) and int(np.prod(rshape, dtype=object)) > 0 and all(isinstance(i, slice) for i in index):
+                    cut = any((i.start or 0) % c or ((n if i.stop is None else i.stop) % c and (n if i.stop is None else i.stop) != n) for i, c, n in zip(index, grid, shape))
+                    labs.add("read-cuts-storage-chunk" if cut else "read-on-storage-grid")
         try:
             requested = S.requested_elements(mine, shape)
         except Exception as e:
@@ -483,7 +490,10 @@ def check(case, vals=None):
                 continue
             extra = requested & ~requested_v
             if extra.any():
-                if chain_unit_step(prog, o):
+                if np.asarray(vals[o]).size == 0:
+                    # an empty selection keeps one 0-length piece of some block and reads that block
+                    labs.add("empty-selection-reads-a-block")
+                elif chain_unit_step(prog, o):
                     fails.append(("metamorphic|sliced-read-not-subset", f"output {o} = var{v}[...] requests {int(extra.sum())} elements that computing var{v} alone does not request; y: {[m[0] for m in mine]!r}; v: {[m[0] for m in mine_v]!r}"))
                 else:
                     labs.add("unpushable-slice-reads-beyond-prefix")
